@@ -1,5 +1,6 @@
 import Sop.Lemmas.Commit
 import Sop.Lemmas.CommitWitness
+import Sop.Lemmas.CommitClean8
 /-!
 # C07 — a commit that fails on an I/O or lock error leaves no trace and no blockage
 
@@ -7,6 +8,18 @@ Stated on Model P. The full statement is false for the code as it is; three inde
 here and replayed on the implementation by the harness (findings C07-F1..F3, F5). What holds in general is the
 per-handle algebra: an undone reservation is exactly the pre-reservation image with an empty inactive slot
 (`undo_restores_handle`), i.e. the undo routine is right whenever `rollback` decides to run it.
+
+Whole runs (`C07_failed_*`): for every write set and start state satisfying `Pre`/`Pre2`, every transaction id and
+every fault OUTSIDE the finding positions, a commit that returns an error ends with every updated node's registry
+handle restored (inactive id empty and work-in-progress timestamp 0, or the entry untouched) and with no node-key
+lock of the transaction left. Covered: every fault position of phase 2 (`C07_failed_phase2_no_blockage`); phase-1
+failures by the injected fault at committed state `commitRemovedNodes` … `beforeFinalize`
+(`C07_failed_phase1_late_no_blockage`) and at committed state ≤ `commitNewRootNodes`, or `areFetchedItemsIntact`
+with a `tlog.Add` / `reg.Get` / `reg.UpdateNoLocks:failBefore` fault (`C07_failed_phase1_early_untouched`).
+Not covered (= C07-F1): `blob.Add` and `reg.UpdateNoLocks:failAfter` at committed state `areFetchedItemsIntact`,
+anything at committed state `commitUpdatedNodes`; and errors the code detects by itself while the injected fault is
+still pending (the fault may then hit the rollback's own calls). The theorems speak of the UPDATED nodes' handles and
+the node-key locks only: removal marks (C07-F5), new roots (F4), counts (F3) and item lock records (F2) are not claimed.
 -/
 namespace Sop.C07
 open Sop.Commit
@@ -106,5 +119,103 @@ theorem C07_counterexample : ¬ Statement_C07 := by
 /-- what does work: with no fault the witness transactions commit (the premises above are not vacuous) -/
 example : (commit Witness.wSplit 30 { s := Witness.s0, tid := 1, fault := none, fresh := [(1, 9)] }).1 = .ok := by
   decide +kernel
+
+/-! ## Whole runs: a failed commit outside the finding positions leaves no reservation and no node lock -/
+
+/-- a handle with an empty inactive slot that is not marked deleted can be reserved at once, at its own version -/
+theorem C07_clean_handle_reservable (now hour : Int) (f : UUID) (g : Handle) (hi : g.inactive = 0) (hd : g.deleted = false) :
+    ∃ h', reserveOne now hour f g g.version = some h' := by
+  unfold reserveOne
+  simp only [hd, Bool.false_and, Bool.false_or, bne_self_eq_false, Bool.false_eq_true, ↓reduceIte]
+  have hall : ∃ h', g.allocate f now = some h' := by
+    unfold Handle.allocate Handle.bothInUse
+    unfold Handle.inactive at hi
+    cases hb : g.activeB <;> simp [hb] at hi ⊢ <;> simp [hi]
+  obtain ⟨h', hg⟩ := hall
+  exact ⟨h', by simp [hg]⟩
+
+/-- **Phase 2 fails, at ANY fault position** (its first log write, the flip write failing before or after its effect):
+every updated node's handle is back with an empty inactive slot and timestamp 0, same active id and version as before
+the commit, and the transaction holds no node lock. -/
+theorem C07_failed_phase2_no_blockage (s0 : State) (w : WS) (fresh0 : List (UUID × UUID))
+    (pre : Pre s0 w fresh0) (pre2 : Pre2 s0 w fresh0) (fault : Option Fault) {cs0 : Step} (tid : Tid) (n : Nat) (r1 r2 : Run)
+    (hl : ∀ k, s0.nodeLock k ≠ some tid)
+    (h1 : phase1 w n { s := s0, tid := tid, fault := fault, fresh := fresh0, cs := cs0 } = .ok ((), r1))
+    (h2 : phase2 w r1 = .error r2) :
+    HandlesCleared s0 w (commit w n { s := s0, tid := tid, fault := fault, fresh := fresh0, cs := cs0 }).2.s ∧
+    NoNodeLocks tid (commit w n { s := s0, tid := tid, fault := fault, fresh := fresh0, cs := cs0 }).2.s :=
+  commit_phase2_failure_no_blockage pre pre2 fault tid n r1 r2 hl h1 h2
+
+/-- **Phase 1 fails by the injected fault after `commitUpdatedNodes` was logged as done** (committed state
+`commitRemovedNodes`, `commitAddedNodes`, `commitStoreInfo` or `beforeFinalize`: any call of `commitRemovedNodes`,
+`commitAddedNodes`, the store-count update, the priority log, the lock re-checks, and the log writes of those steps):
+`rollback` runs `rollbackUpdatedNodes` and `unlockNodesKeys`, and with the fault spent neither can fail. -/
+theorem C07_failed_phase1_late_no_blockage (s0 : State) (w : WS) (fresh0 : List (UUID × UUID))
+    (pre : Pre s0 w fresh0) (fault : Option Fault) {cs0 : Step} (tid : Tid) (n : Nat) (r1 : Run)
+    (hl : ∀ k, s0.nodeLock k ≠ some tid)
+    (h1 : phase1 w n { s := s0, tid := tid, fault := fault, fresh := fresh0, cs := cs0 } = .error r1)
+    (hc : r1.conflicted = false) (hsp : spentB r1 = true) (hcs : pastUpdated r1.cs = true) :
+    HandlesCleared s0 w (commit w n { s := s0, tid := tid, fault := fault, fresh := fresh0, cs := cs0 }).2.s ∧
+    NoNodeLocks tid (commit w n { s := s0, tid := tid, fault := fault, fresh := fresh0, cs := cs0 }).2.s :=
+  commit_phase1_late_failure_no_blockage pre fault tid n r1 hl h1 hc hsp hcs
+
+/-- **Phase 1 fails by the injected fault before the reservation write took effect** (`earlyB`): the updated nodes'
+registry entries are exactly the ones before the commit, and no node lock is left. -/
+theorem C07_failed_phase1_early_untouched (s0 : State) (w : WS) (fresh0 : List (UUID × UUID))
+    (pre : Pre s0 w fresh0) (pre2 : Pre2 s0 w fresh0) (fault : Option Fault) {cs0 : Step} (tid : Tid) (n : Nat) (r1 : Run)
+    (hl : ∀ k, s0.nodeLock k ≠ some tid)
+    (h1 : phase1 w n { s := s0, tid := tid, fault := fault, fresh := fresh0, cs := cs0 } = .error r1)
+    (hc : r1.conflicted = false) (hsp : spentB r1 = true) (he : earlyB r1 = true) :
+    HandlesUntouched s0 w (commit w n { s := s0, tid := tid, fault := fault, fresh := fresh0, cs := cs0 }).2.s ∧
+    NoNodeLocks tid (commit w n { s := s0, tid := tid, fault := fault, fresh := fresh0, cs := cs0 }).2.s :=
+  commit_phase1_early_failure_no_blockage pre pre2 fault tid n r1 hl h1 hc hsp he
+
+/-- **…the registry part of the early case needs no assumption on the fault**: phase 1 stops early by the injected
+fault OR by an error the code detects itself (an item-lock conflict, a version conflict with the retry budget used up),
+with the fault then free to hit any call of the live rollback — the updated nodes' registry entries are still exactly
+the ones before the commit. -/
+theorem C07_failed_phase1_early_untouched_any_fault (s0 : State) (w : WS) (fresh0 : List (UUID × UUID))
+    (pre : Pre s0 w fresh0) (pre2 : Pre2 s0 w fresh0) (fault : Option Fault) {cs0 : Step} (tid : Tid) (n : Nat) (r1 : Run)
+    (h1 : phase1 w n { s := s0, tid := tid, fault := fault, fresh := fresh0, cs := cs0 } = .error r1)
+    (hc : r1.conflicted = false) (he : earlyB r1 = true) :
+    HandlesUntouched s0 w (commit w n { s := s0, tid := tid, fault := fault, fresh := fresh0, cs := cs0 }).2.s :=
+  commit_phase1_early_failure_untouched pre pre2 fault tid n r1 h1 hc he
+
+/-- **C07, whole run, restricted to the non-finding fault positions** (`coveredFailure`, a Boolean computed on the
+model from the write set, the start state and the fault): whenever `Commit` returns an error, every updated node's
+handle is restored and no node-key lock of the transaction is left — so, by `C07_clean_handle_reservable`, the next
+transaction can reserve those nodes at once. -/
+theorem C07_failed_commit_no_blockage (s0 : State) (w : WS) (fresh0 : List (UUID × UUID))
+    (pre : Pre s0 w fresh0) (pre2 : Pre2 s0 w fresh0) (fault : Option Fault) {cs0 : Step} (tid : Tid) (n : Nat)
+    (hl : ∀ k, s0.nodeLock k ≠ some tid)
+    (herr : (commit w n { s := s0, tid := tid, fault := fault, fresh := fresh0, cs := cs0 }).1 = .err)
+    (hcov : coveredFailure w n { s := s0, tid := tid, fault := fault, fresh := fresh0, cs := cs0 } = true) :
+    HandlesRestored s0 w (commit w n { s := s0, tid := tid, fault := fault, fresh := fresh0, cs := cs0 }).2.s ∧
+    NoNodeLocks tid (commit w n { s := s0, tid := tid, fault := fault, fresh := fresh0, cs := cs0 }).2.s :=
+  commit_failure_no_blockage pre pre2 fault tid n hl herr hcov
+
+/-- the hypotheses are satisfiable by non-trivial runs, one per covered class: the flip write of the split transaction
+fails after its effect (phase 2); the registration of the added node fails after its effect (phase 1, committed
+state `commitAddedNodes`); the node-lock call fails (phase 1, early) -/
+example : (rFail Witness.wSplit ⟨.regUpdateNoLocks, 2, .failAfter⟩ [(1, 9)]).1 = .err ∧
+    coveredFailure Witness.wSplit 30 { s := Witness.s0, tid := 1, fault := some ⟨.regUpdateNoLocks, 2, .failAfter⟩, fresh := [(1, 9)] } = true := by
+  refine ⟨?_, ?_⟩ <;> decide +kernel
+example : (rFail Witness.wSplit ⟨.regAdd, 1, .failAfter⟩ [(1, 9)]).1 = .err ∧
+    coveredFailure Witness.wSplit 30 { s := Witness.s0, tid := 1, fault := some ⟨.regAdd, 1, .failAfter⟩, fresh := [(1, 9)] } = true := by
+  refine ⟨?_, ?_⟩ <;> decide +kernel
+example : (rFail Witness.wSplit ⟨.l2Lock, 1, .failAfter⟩ [(1, 9)]).1 = .err ∧
+    coveredFailure Witness.wSplit 30 { s := Witness.s0, tid := 1, fault := some ⟨.l2Lock, 1, .failAfter⟩, fresh := [(1, 9)] } = true := by
+  refine ⟨?_, ?_⟩ <;> decide +kernel
+
+/-- …and the finding position is outside the class: the staged-blob write inside `commitUpdatedNodes` -/
+example : coveredFailure Witness.wSplit 30 { s := Witness.s0, tid := 1, fault := some ⟨.blobAdd, 1, .failBefore⟩, fresh := [(1, 9)] } = false := by
+  decide +kernel
+
+/-- the theorem applied to the flip-failure witness: node 1's handle is restored, no node lock of transaction 1 is left -/
+example :
+    HandlesRestored Witness.s0 Witness.wSplit (commit Witness.wSplit 30 { s := Witness.s0, tid := 1, fault := some ⟨.regUpdateNoLocks, 2, .failAfter⟩, fresh := [(1, 9)], cs := .unknown }).2.s ∧
+    NoNodeLocks 1 (commit Witness.wSplit 30 { s := Witness.s0, tid := 1, fault := some ⟨.regUpdateNoLocks, 2, .failAfter⟩, fresh := [(1, 9)], cs := .unknown }).2.s :=
+  C07_failed_commit_no_blockage (cs0 := .unknown) Witness.s0 Witness.wSplit [(1, 9)] Witness.pre_wSplit Witness.pre2_wSplit
+    (some ⟨.regUpdateNoLocks, 2, .failAfter⟩) 1 30 (Witness.s0_no_locks 1) (by decide +kernel) (by decide +kernel)
 
 end Sop.C07
